@@ -7,6 +7,9 @@ use crate::vx_gram::*;
 use crate::vx_ord::*;
 use crate::vx_hash::*;
 use crate::vx_utf8::*;
+use crate::pipeline::sort_and_get_index_updater::{is_index_map, hit};
+use crate::data::machine::State;
+broadcast use {vstd::std_specs::hash::group_hash_axioms, crate::vx_hash_ax::group_key_models, crate::vx_ordax::group_lawful, crate::data::oset::axiom_yielded_oset, crate::vx_ord::axiom_yielded_vec};
 //@]
 use crate::data::{
     machine::{Machine, StateIndex, Transition},
@@ -17,27 +20,122 @@ use crate::data::{
 use crate::pipeline::sort_and_get_index_updater::sort_and_get_index_updater;
 
 /// The first state must be the start state.
-pub fn normalize_machine(unnormalized: UnnormalizedMachine) -> Machine {
+//@[ C17 C14 ghost: the normalised machine is a renumbering of the unnormalised one (start state = image of state 0)
+pub open spec fn is_renumbering(pi: Seq<usize>, states: Seq<State>, tr: Set<Transition>, m: Machine) -> bool {
+    &&& pi.len() == states.len() && m.states.seq().len() == states.len() && m.states.wf() && m.transitions.wf()
+    &&& forall|i: int| 0 <= i < pi.len() ==> (#[trigger] pi[i]) < states.len() && m.states.seq()[pi[i] as int] == states[i]
+    &&& forall|i: int, j: int| 0 <= i < j < pi.len() ==> #[trigger] pi[i] != #[trigger] pi[j]
+    &&& states.len() > 0 && m.start.0 == pi[0]
+    &&& forall|t: Transition| #[trigger] m.transitions@.contains(t) <==>
+            exists|t0: Transition| #[trigger] tr.contains(t0) && t == renumbered(pi, t0)
+}
+pub open spec fn renumbered(pi: Seq<usize>, t0: Transition) -> Transition {
+    Transition { from: StateIndex(pi[t0.from.0 as int]), to: StateIndex(pi[t0.to.0 as int]), symbol: t0.symbol }
+}
+//@]
+
+pub fn normalize_machine(unnormalized: UnnormalizedMachine) -> /*@[*/(r: /*@]*/Machine/*@[*/)/*@]*/
+    //@[ C17 C14 normalize_machine: states sorted by content, transitions renumbered consistently; the result does not depend on hash order
+    requires unnormalized.states@.len() > 0,
+        forall|i: int, j: int| 0 <= i < j < unnormalized.states@.len() ==> #[trigger] unnormalized.states@[i] != #[trigger] unnormalized.states@[j],
+        forall|t: Transition| #[trigger] unnormalized.transitions@.contains(t) ==> t.from.0 < unnormalized.states@.len() && t.to.0 < unnormalized.states@.len(),
+    ensures exists|pi: Seq<usize>| #[trigger] is_renumbering(pi, unnormalized.states@, unnormalized.transitions@, r),
+    //@]
+{
+    //@[ proof
+    let ghost states0 = unnormalized.states@;
+    let ghost tr0 = unnormalized.transitions@;
+    //@]
     let states = unnormalized.states;
     let transitions: Oset<Transition> = /*@{ T6_transitions*//*@- unnormalized.transitions *//*@|*/__vx_hashset_listing(unnormalized.transitions)/*@}*/.into_iter().collect();
+    //@[ proof
+    proof {
+        // the ordered set holds exactly the elements of the hash set, whatever the listing order was
+        assert forall|t: Transition| transitions@.contains(t) <==> tr0.contains(t) by {
+            let listing = choose|listing: Seq<Transition>| #![auto] transitions@ == listing.to_set() && is_set_listing(tr0, listing);
+            if tr0.contains(t) { assert(listing.contains(t)); }
+        }
+        assert(transitions@ =~= tr0);
+    }
+    //@]
     let (states, updater) = sort_and_get_index_updater(states);
+    //@[ proof
+    let ghost pi = updater@;
+    let ghost sorted = states@;
+    proof {
+        // distinct elements in non-decreasing order are strictly increasing
+        lemma_lt_props::<State>();
+        assert(strictly_sorted(sorted)) by {
+            assert forall|a: int, b: int| 0 <= a < b < sorted.len() implies lt(#[trigger] sorted[a], #[trigger] sorted[b]) by {
+                assert(hit(pi, a) && hit(pi, b));
+                let i = choose|i: int| 0 <= i < pi.len() && #[trigger] pi[i] == a;
+                let j = choose|j: int| 0 <= j < pi.len() && #[trigger] pi[j] == b;
+                assert(sorted[a] == states0[i] && sorted[b] == states0[j]);
+                if i < j { assert(states0[i] != states0[j]); } else { assert(states0[j] != states0[i]); }
+            }
+        }
+    }
+    //@]
     let transitions = update_transitions(transitions, &updater);
     let start = StateIndex(updater.update(0));
-    Machine {
+    /*@{ bind_result*//*@- Machine {
         start,
         states: states.into_iter().collect(),
         transitions,
+    } *//*@|*/let __vx_m = Machine {
+        start,
+        states: states.into_iter().collect(),
+        transitions,
+    };
+    proof {
+        lemma_sorted_ext(__vx_m.states.seq(), sorted);
+        assert(is_renumbering(pi, states0, tr0, __vx_m));
     }
+    __vx_m/*@}*/
 }
 
-fn update_transitions(transitions: Oset<Transition>, updater: &IndexUpdater) -> Oset<Transition> {
-    transitions
+fn update_transitions(transitions: Oset<Transition>, updater: &IndexUpdater) -> /*@[*/(r: /*@]*/Oset<Transition>/*@[*/)/*@]*/
+    //@[ C17 update_transitions: every transition with both ends renumbered
+    requires transitions.wf(), forall|t: Transition| #[trigger] transitions@.contains(t) ==> t.from.0 < updater@.len() && t.to.0 < updater@.len(),
+    ensures r.wf(), forall|t: Transition| #[trigger] r@.contains(t) <==> exists|t0: Transition| #[trigger] transitions@.contains(t0) && t == renumbered(updater@, t0),
+    //@]
+{
+    //@[ proof
+    let ghost src = transitions.seq();
+    let ghost tset = transitions@;
+    proof {
+        assert forall|i: int| 0 <= i < src.len() implies (#[trigger] src[i]).from.0 < updater@.len() && src[i].to.0 < updater@.len() by { assert(tset.contains(src[i])); }
+    }
+    //@]
+    /*@[*/let __vx_r: Oset<Transition> = /*@]*/transitions
         .into_iter()
-        .map(|transition| update_transition(transition, updater))
-        .collect()
+        .map(|transition/*@[*/: Transition/*@]*/| /*@[*/-> (o: Transition)
+            requires transition.from.0 < updater@.len() && transition.to.0 < updater@.len()
+            ensures o == renumbered(updater@, transition)
+        { /*@]*/update_transition(transition, updater)/*@[*/ }/*@]*/)
+        .collect()/*@[*/;
+    proof {
+        // __vx_r@ is the set of the mapped sequence
+        let mapped = choose|mapped: Seq<Transition>| #![auto] __vx_r@ == mapped.to_set() && mapped.len() == src.len()
+            && forall|i: int| 0 <= i < src.len() ==> #[trigger] mapped[i] == renumbered(updater@, src[i]);
+        assert forall|t: Transition| #[trigger] __vx_r@.contains(t) <==> exists|t0: Transition| #[trigger] tset.contains(t0) && t == renumbered(updater@, t0) by {
+            if __vx_r@.contains(t) { let i = choose|i: int| 0 <= i < mapped.len() && mapped[i] == t; assert(tset.contains(src[i])); }
+            if exists|t0: Transition| #[trigger] tset.contains(t0) && t == renumbered(updater@, t0) {
+                let t0 = choose|t0: Transition| #[trigger] tset.contains(t0) && t == renumbered(updater@, t0);
+                let i = choose|i: int| 0 <= i < src.len() && src[i] == t0;
+                assert(mapped[i] == t); assert(mapped.to_set().contains(mapped[i]));
+            }
+        }
+    }
+    __vx_r/*@]*/
 }
 
-fn update_transition(transition: Transition, updater: &IndexUpdater) -> Transition {
+fn update_transition(transition: Transition, updater: &IndexUpdater) -> /*@[*/(r: /*@]*/Transition/*@[*/)/*@]*/
+    //@[ C17 C07 update_transition: from and to renumbered (each with its own index), symbol kept
+    requires transition.from.0 < updater@.len(), transition.to.0 < updater@.len(),
+    ensures r == renumbered(updater@, transition),
+    //@]
+{
     Transition {
         from: StateIndex(updater.update(transition.from.0)),
         to: StateIndex(updater.update(transition.to.0)),
